@@ -79,6 +79,13 @@ func (fr *Frame) calleeNames(cc *ssa.CallCommon) []string {
 	case *ssa.Builtin:
 		return []string{v.Name()}
 	case *ssa.Function:
+		if o := v.Origin(); o != nil {
+			// generic instance: also match by the origin's plain name
+			out = append(out, o.Name(), displayName(o))
+			if o.Pkg != nil {
+				out = append(out, o.Pkg.Pkg.Name()+"."+o.Name())
+			}
+		}
 		out = append(out, v.Name())
 		dn := displayName(v)
 		out = append(out, dn)
@@ -351,7 +358,10 @@ func (fr *Frame) applyGhostSet(gs *GhostSet, site ssa.Instruction, argBind map[s
 		}
 		idx = append(idx, tv.T)
 	}
-	s, _, _ := e.ghostSort(g)
+	s, _, gres := e.ghostSort(g)
+	if val.IsNil && gres.Ty != nil {
+		val = e.coerceNil(val, gres.Ty)
+	}
 	name := ghostCompName(g)
 	cur := c.comp(fr.st, name, s)
 	nv := storeN(cur, idx, val.T)
@@ -914,16 +924,8 @@ func (fr *Frame) havocAll() {
 		if strings.HasPrefix(n, "RV_") || strings.HasPrefix(n, "recvd") || n == "held" {
 			continue
 		}
-		if strings.HasPrefix(n, "G_") {
-			local := false
-			for _, g := range c.P.Specs.Ghosts {
-				if g.Local && ghostCompName(g) == n {
-					local = true
-				}
-			}
-			if local {
-				continue
-			}
+		if c.isLocalGhostComp(n) {
+			continue
 		}
 		if n == "alloc" {
 			fr.growAlloc()
@@ -1609,7 +1611,7 @@ func (fr *Frame) checkFrame(ret *ssa.Return) {
 		entryAlloc = c.compInit["alloc"]
 	}
 	for _, n := range names {
-		if n == "alloc" || n == "held" || strings.HasPrefix(n, "RV_") || strings.HasPrefix(n, "recvd") || strings.HasPrefix(n, "closed") {
+		if n == "alloc" || n == "held" || strings.HasPrefix(n, "RV_") || strings.HasPrefix(n, "recvd") || strings.HasPrefix(n, "closed") || c.isLocalGhostComp(n) {
 			continue
 		}
 		if declared[n] {
@@ -1671,8 +1673,24 @@ func (fr *Frame) applyEntrySet(gs *GhostSet) {
 		}
 		idx = append(idx, tv.T)
 	}
-	s, _, _ := e.ghostSort(g)
+	s, _, gres := e.ghostSort(g)
+	if val.IsNil && gres.Ty != nil {
+		val = e.coerceNil(val, gres.Ty)
+	}
 	name := ghostCompName(g)
 	cur := c.comp(fr.st, name, s)
 	c.setComp(fr.st, name, storeN(cur, idx, val.T))
+}
+
+// isLocalGhostComp: function-private ghost state (`ghost local`) is not part of any frame.
+func (c *Ctx) isLocalGhostComp(n string) bool {
+	if !strings.HasPrefix(n, "G_") {
+		return false
+	}
+	for _, g := range c.P.Specs.Ghosts {
+		if g.Local && ghostCompName(g) == n {
+			return true
+		}
+	}
+	return false
 }
